@@ -218,6 +218,10 @@ Definition new_metainfo_stream (d : list N) (r : reader) (pl : Z) : res metainfo
    theorems show it never happens on generated metainfo *)
 Definition wrap64 (z : Z) : Z := ((z + 9223372036854775808) mod 18446744073709551616 - 9223372036854775808)%Z.
 
+(* what both constructors are meant to produce for a blob (specification) *)
+Definition expected (d : list N) (data : list N) (pl : Z) : metainfo :=
+  assemble d (lenZ data) (map sum (pieces (Z.to_N pl) data)) pl.
+
 (* metainfo.go:91 GetPieceLength *)
 Definition get_piece_length (mi : metainfo) (i : Z) : Z :=
   let n := lenZ (i_sums (mi_info mi)) in
@@ -462,6 +466,18 @@ Definition omobs_eqb (a b : option mobs) : bool :=
   | Some x, Some y => mobs_eqb x y
   | _, _ => false
   end.
+
+(* ------------------------------------------------------------------ well-formed info (specification):
+   int64 fields, uint32 sums, a name made of plain characters *)
+Definition in_i64P (z : Z) : Prop := (-9223372036854775808 <= z < 9223372036854775808)%Z.
+Definition sums_ok (l : list N) : Prop := Forall (fun x => x < 4294967296) l.
+Definition name_char_ok (c : N) : Prop := c <> 34 /\ c <> 92 /\ 32 <= c /\ c <= 127.
+Record wf_info (i : info) : Prop := {
+  wf_pl : in_i64P (i_pl i);
+  wf_len : in_i64P (i_len i);
+  wf_sums : sums_ok (i_sums i);
+  wf_name : Forall name_char_ok (i_name i);
+  wf_enn : i_enn i = true -> i_sums i = [] }.
 
 (* ------------------------------------------------------------------ CRC-32 (IEEE 802.3), bit by bit
    hash/crc32: crc = ^0; per byte: crc ^= b; 8 x (crc = crc>>1 ^ (poly if crc&1)); result ^crc *)
